@@ -37,7 +37,10 @@ pub fn xl_str(s: &str, wide: bool) -> Vec<u8> {
 }
 
 #[derive(Clone, Debug, PartialEq)]
-pub enum FRes { Num(f64), Str(String, bool), Bool(bool), Err(u8), EmptyStr }
+pub enum FRes { Num(f64), Str(String, bool), Bool(bool), Err(u8), EmptyStr,
+    /// string result of the anchor cell of a shared formula (0x04BC), array formula (0x0221) or data table (0x0236):
+    /// that record sits between FORMULA and STRING
+    StrVia(String, bool, u16) }
 
 #[derive(Clone, Debug, PartialEq)]
 pub enum BCell {
@@ -78,7 +81,7 @@ pub fn cell_records(c: &BCell) -> Vec<u8> {
             let mut d = vec![]; d.extend(r.to_le_bytes()); d.extend(c.to_le_bytes()); d.extend(xf.to_le_bytes());
             let val: [u8; 8] = match res {
                 FRes::Num(v) => v.to_le_bytes(),
-                FRes::Str(..) => [0, 0, 0, 0, 0, 0, 0xFF, 0xFF],
+                FRes::Str(..) | FRes::StrVia(..) => [0, 0, 0, 0, 0, 0, 0xFF, 0xFF],
                 FRes::Bool(b) => [1, 0, *b as u8, 0, 0, 0, 0xFF, 0xFF],
                 FRes::Err(e) => [2, 0, *e, 0, 0, 0, 0xFF, 0xFF],
                 FRes::EmptyStr => [3, 0, 0, 0, 0, 0, 0xFF, 0xFF],
@@ -90,6 +93,16 @@ pub fn cell_records(c: &BCell) -> Vec<u8> {
             d.extend(rgce);
             let mut out = rec(0x0006, &d);
             if let FRes::Str(s, wide) = res { out.extend(rec(0x0207, &xl_str(s, *wide))); }
+            if let FRes::StrVia(s, wide, t) = res {
+                let mut p = vec![];
+                match *t {
+                    0x04BC => { p.extend(r.to_le_bytes()); p.extend(r.to_le_bytes()); p.push(*c as u8); p.push(*c as u8); p.push(0); p.push(1); p.extend(3u16.to_le_bytes()); p.extend([0x1E, 1, 0]); } // SHRFMLA
+                    0x0221 => { p.extend(r.to_le_bytes()); p.extend(r.to_le_bytes()); p.push(*c as u8); p.push(*c as u8); p.extend(0u16.to_le_bytes()); p.extend(0u32.to_le_bytes()); p.extend(3u16.to_le_bytes()); p.extend([0x1E, 1, 0]); } // ARRAY
+                    _ => { p.extend(r.to_le_bytes()); p.extend(r.to_le_bytes()); p.push(*c as u8); p.push(*c as u8); p.extend(0u16.to_le_bytes()); p.extend([0u8; 8]); } // TABLE
+                }
+                out.extend(rec(*t, &p));
+                out.extend(rec(0x0207, &xl_str(s, *wide)));
+            }
             out
         }
         BCell::Raw(t, d) => rec(*t, d),
